@@ -128,7 +128,7 @@ def rule_minmax(repo, col):
                        isinstance(n.func, ast.Attribute) and
                        n.func.attr == 'iter_data']
         for c in sparse_iter:
-            d = kwarg(c, 'dense')
+            d = kwarg(c, 'dense') or (c.args[0] if c.args else None)
             col.check(isinstance(d, ast.Constant) and d.value is False, rule,
                       TABLE, 'Table.%s' % m, 'sparse-iteration', c,
                       'vectors are iterated sparse',
